@@ -26,6 +26,9 @@ func Ctl(ncpu int, body func()) *zzvs.Result {
 	return r
 }
 
+// StarveFn runs one execution in which goroutine `starve` is only scheduled when nothing else can run.
+type StarveFn func(starve string) (*zzvs.Result, string)
+
 // ExecFn runs one execution following prefix and returns the scheduler's result and the
 // observation (outcome, error, output bytes ... as one string) the oracle compares.
 type ExecFn func(prefix []int) (*zzvs.Result, string)
